@@ -26,12 +26,18 @@ CONFIGS = {
 UNSEEN = ["zz", 7]
 
 
-def h_qual(ctx, config, output_dtype, dropna, nrows, props):
+G_GROUPS = [("u", ["u"]), ("v", ["v2", "v"]), ("w", ["w"]), ("x", ["x"])]  # companion feature g: 5 known values, no default, no NaN
+G_UNIVERSE = ["u", "v2", "w", "x", "zz"]
+
+
+def h_qual(ctx, config, output_dtype, dropna, nrows, props, two_features=False):
     from AutoCarver.discretizers import GroupedList
     from AutoCarver.discretizers.utils.base_discretizers import BaseDiscretizer
 
     groups, has_default, has_nan = CONFIGS[config]
     gl = GroupedList({l: list(m) for l, m in groups})
+    if two_features:
+        return h_qual2(ctx, config, output_dtype, dropna, nrows, props)
     d = BaseDiscretizer(["f"], values_orders={"f": gl}, input_dtypes="str", output_dtype=output_dtype, str_nan=NAN,
                         str_default=OTHER, dropna=dropna, copy=True, verbose=False)
     d.fit()
@@ -110,6 +116,56 @@ def h_qual(ctx, config, output_dtype, dropna, nrows, props):
     return dict(counters={"ok": 1}, sample=dict(config=config, rows=rows, out=col), result=[("nan" if isnan(o) else o) for o in col])
 
 
+def h_qual2(ctx, config, output_dtype, dropna, nrows, props):
+    """Two qualitative features transformed together (different numbers of distinct values per column:
+    DataFrame.apply(result_type='expand') then returns a Series of lists instead of a DataFrame)."""
+    from AutoCarver.discretizers import GroupedList
+    from AutoCarver.discretizers.utils.base_discretizers import BaseDiscretizer
+
+    groups, has_default, has_nan = CONFIGS[config]
+    d = BaseDiscretizer(["f", "g"], values_orders={"f": GroupedList({l: list(m) for l, m in groups}), "g": GroupedList({l: list(m) for l, m in G_GROUPS})},
+                        input_dtypes="str", output_dtype=output_dtype, str_nan=NAN, str_default=OTHER, dropna=dropna, copy=True, verbose=False)
+    d.fit()
+    single_f = BaseDiscretizer(["f"], values_orders={"f": GroupedList({l: list(m) for l, m in groups})}, input_dtypes="str", output_dtype=output_dtype, str_nan=NAN,
+                               str_default=OTHER, dropna=dropna, copy=True, verbose=False)
+    single_f.fit()
+    single_g = BaseDiscretizer(["g"], values_orders={"g": GroupedList({l: list(m) for l, m in G_GROUPS})}, input_dtypes="str", output_dtype=output_dtype, str_nan=NAN,
+                               str_default=OTHER, dropna=dropna, copy=True, verbose=False)
+    single_g.fit()
+    known = [v for _, m in groups for v in m]
+    universe = [v for v in known if v != NAN][:3] + ["zz"] + ([np.nan] if has_nan else [])
+    rows_f = [universe[ctx.choose(f"r{i}", len(universe))] for i in range(nrows)]
+    rows_g = [G_UNIVERSE[ctx.choose(f"s{i}", len(G_UNIVERSE))] for i in range(nrows)]
+    X = pd.DataFrame({"f": pd.Series(rows_f, dtype=object), "g": pd.Series(rows_g, dtype=object)})
+
+    def run(obj, frame):
+        try:
+            return "ok", obj.transform(frame)
+        except AssertionError as e:
+            return "AssertionError:" + ("f" if "'f'" in str(e) else "") + ("g" if "'g'" in str(e) else ""), None
+        except Exception as e:
+            return f"{type(e).__name__}: {str(e)[:100]}", None
+
+    s_both, o_both = run(d, X)
+    s_f, o_f = run(single_f, X[["f"]])
+    s_g, o_g = run(single_g, X[["g"]])
+    ctx.require(not (s_both.startswith("ok") is False and not s_both.startswith("AssertionError")), "C05.internal-error", f"transform of two features raised {s_both} (rows f={rows_f}, g={rows_g})")
+    expect_ok = s_f == "ok" and s_g == "ok"
+    ctx.require((s_both == "ok") == expect_ok, "C05.unseen-accepted" if s_both == "ok" else "C05.valid-frame-rejected",
+                f"two features together: {s_both}; separately f: {s_f}, g: {s_g} (rows f={rows_f}, g={rows_g})")
+    if s_both != "ok":
+        bad = ("f" if s_f != "ok" else "") + ("g" if s_g != "ok" else "")
+        ctx.require(any(c in s_both for c in bad), "C05.error-does-not-name-feature", f"rejection {s_both!r} names none of the offending features {bad!r}")
+        return dict(counters={"rejected": 1}, sample=dict(config=config, rows_f=rows_f, rows_g=rows_g, outcome=s_both), result="rejected")
+
+    def same(a, b):
+        return all((x == y) or (isinstance(x, float) and x != x and isinstance(y, float) and y != y) for x, y in zip(a, b))
+
+    ctx.require(same(list(o_both["f"]), list(o_f["f"])) and same(list(o_both["g"]), list(o_g["g"])), "C04.wrong-group",
+                f"output of a feature changes when another feature is transformed with it: f {list(o_both['f'])} vs {list(o_f['f'])}, g {list(o_both['g'])} vs {list(o_g['g'])}")
+    return dict(counters={"ok": 1}, sample=dict(config=config, rows_f=rows_f, rows_g=rows_g), result=[str(v) for v in list(o_both["f"]) + list(o_both["g"])])
+
+
 def obligation(tier, props, name):
     quick = tier == "quick"
     jobs = []
@@ -118,6 +174,9 @@ def obligation(tier, props, name):
             for dropna in (True, False):
                 for nrows in ([0, 1, 2] if quick else [0, 1, 2, 3]):
                     jobs.append(dict(config=config, output_dtype=od, dropna=dropna, nrows=nrows, props=sorted(props)))
+                if ("C05" in props or "C04" in props) and config in ("plain", "default", "nan_alone"):
+                    for nrows in ([1, 2] if quick else [1, 2, 3]):
+                        jobs.append(dict(config=config, output_dtype=od, dropna=dropna, nrows=nrows, props=sorted(props), two_features=True))
     return Obligation(
         name=name, harness=h_qual, jobs=jobs, encodes=ENC, rebindings=[],
         bounds=f"{len(CONFIGS)} fitted configurations (plain, default group, NaN alone/merged, numeric-valued members), frames of 0..{2 if quick else 3} rows, each row a solver-chosen "
